@@ -3,7 +3,8 @@ import hashlib
 
 from .core import exc_class, hx, unhx
 from .gitobj_common import (LEGACY_DATE_MODES, author_line_spec, date_dict, date_dict_legacy, enc_date, enc_opt, gen_bytes,
-                            gen_bytes_wide, gen_date_wide, gen_fullname_wide, gen_id, mk_person, mk_tstz, person_dict)
+                            gen_bytes_wide, gen_date_wide, gen_fullname_wide, gen_id, mk_person, mk_person_from_fullname, mk_tstz,
+                            person_dict, BytesSub)
 
 ID = "C04"
 PROPS = "Props/C04.v"
@@ -23,7 +24,7 @@ RULE = ("5 target types x {no author, author, author+date, date without author (
         "layout, keys named like tag-object lines or like Release fields, nested containers, empty; as dict or ImmutableDict) and "
         "must keep its id; the base object itself sometimes carries such metadata. Every case: constructor, from_dict, the deprecated "
         "dict argument (stale ids), taggers without fullname, check(), second calls; one group per case of: from_dict with the same "
-        "dict twice / optional keys absent / id=b'' / to_dict round trips and dict arguments with and without id and with metadata / "
+        "dict twice / optional keys absent / id=b'' / values of a bytes subclass / to_dict round trips and dict arguments with and without id and with metadata / "
         "dates in the older dictionary encodings; one per case of: explicit id (empty / own / foreign: check() must refuse it), raw "
         "manifest (own / empty / arbitrary), evolve there and back; "
         "non-trivial = an optional field present and a multi-line or empty value; distinct = distinct request")
@@ -172,7 +173,8 @@ def _build(c, variant=0, **over):
               target=None if c["target"] is None else bytes.fromhex(c["target"]),
               target_type=ReleaseTargetType(c["ttype"]),
               synthetic=c["synthetic"] if variant == 0 else not c["synthetic"],
-              author=mk_person(c["author"], variant), date=mk_tstz(c["date"]),
+              author=mk_person_from_fullname(c["author"]) if (variant == 1 and (c.get("md") or 0) % 3 == 2) else mk_person(c["author"], variant),
+              date=mk_tstz(c["date"]),
               metadata=(None if c.get("md0") is None else mk_md(c, "md0")) if variant == 0 else mk_md(c))
     kw.update(over)
     return Release(**kw)
@@ -262,6 +264,17 @@ def _wide_routes(c, r, res, d):
         route(same_id, "from_dict, optional keys absent when unset, id=b'', other synthetic flag, metadata", lambda: Release.from_dict(
             dict({k: v for k, v in d.items() if v is not None or k == "message"}, id=b"", synthetic=not c["synthetic"],
                  metadata=mk_md(c))).id.hex())
+        def sub():
+            from swh.model.model import Person, TimestampWithTimezone
+            over = dict(name=BytesSub(bytes.fromhex(c["name"])), target=BytesSub(bytes.fromhex(c["target"])),
+                        message=None if c["message"] is None else BytesSub(bytes.fromhex(c["message"])))
+            if c["author"] is not None:
+                over["author"] = Person(fullname=BytesSub(bytes.fromhex(c["author"])), name=None, email=None)
+            if c["date"] is not None:
+                t = mk_tstz(c["date"])
+                over["date"] = TimestampWithTimezone(timestamp=t.timestamp, offset_bytes=BytesSub(t.offset_bytes))
+            return _build(c, **over).id.hex()
+        route(same_id, "constructor, values of a bytes subclass", sub)
         route(same_id, "from_dict, metadata=None and raw_manifest=None given", lambda: Release.from_dict(
             dict(d, metadata=None, raw_manifest=None)).id.hex())
     if grp in (None, 1):
@@ -466,7 +479,16 @@ ANCHORS = [('swh/model/git_objects.py', 'release_git_object'),
            ('swh/model/git_objects.py', 'target_type_to_git'),
            ('swh/model/git_objects.py', 'format_author_data'),
            ('swh/model/git_objects.py', 'format_git_object_from_headers'),
-           ('swh/model/model.py', 'Release.check_author')]
+           ('swh/model/model.py', 'Release.check_author'),
+           ('swh/model/git_objects.py', 'escape_newlines'),
+           ('swh/model/model.py', 'Release.from_dict'),
+           ('swh/model/model.py', 'Release.to_dict'),
+           ('swh/model/model.py', 'Person.from_dict'),
+           ('swh/model/model.py', 'HashableObjectWithManifest.compute_hash'),
+           ('swh/model/model.py', 'HashableObjectWithManifest.check'),
+           ('swh/model/model.py', 'BaseHashableModel.check'),
+           ('swh/model/model.py', 'BaseHashableModel.evolve'),
+           ('swh/model/model.py', 'BaseHashableModel.__attrs_post_init__')]
 
 
 def pre_checks(ctx):
